@@ -24,7 +24,7 @@ var subLabel = map[string]string{
 	"sub.l.nil": "o_l_nil", "sub.l.resp": "o_l_resp", "sub.l.written": "o_l_written", "sub.l.writefail": "o_l_writefail",
 	"sub.l.close": "o_l_close", "sub.l.closed": "o_l_closed",
 	"sub.u1.closed": "o_u1_closed",
-	"sub.u2.read": "o_u2_read", "sub.u2.end_msg": "o_u2_end_msg", "sub.u2.end_closed": "o_u2_end_closed",
+	"sub.u2.read":   "o_u2_read", "sub.u2.end_msg": "o_u2_end_msg", "sub.u2.end_closed": "o_u2_end_closed",
 	"sub.u2.delivered/false": "o_u2_sent", "sub.u2.aborted/false": "o_u2_abort", "sub.u2.delivered/true": "o_u2_nilsent", "sub.u2.aborted/true": "o_u2_nilabort",
 }
 
